@@ -56,6 +56,10 @@ func baseWorlds() []*wm.World {
 				Ingress: []wm.NPRule{{Peers: []wm.NPPeer{{CIDR: "10.0.0.0/8"}}, Ports: []wm.NPPort{{HasPort: true, Num: 8080}}}},
 				Egress:  []wm.NPRule{{Peers: []wm.NPPeer{{CIDR: "0.0.0.0/0", Except: []string{"10.0.0.0/8"}}}}}}}},
 		{WLs: wls()[2:], NPs: []wm.NP{{NS: "ns2", Name: "deny", PodSel: wm.Sel{}, Types: []string{"Ingress"}}}},
+		// ipBlocks that are exactly the node / pod addresses the pods get when the workload is expressed as Pods
+		{NSs: nss, WLs: wls(), NPs: []wm.NP{{NS: "ns1", Name: "node-addresses", PodSel: wm.Sel{}, Types: []string{"Ingress", "Egress"},
+			Ingress: []wm.NPRule{{Peers: []wm.NPPeer{{CIDR: wm.PodHostIP(0) + "/32"}, {CIDR: wm.PodIP(1) + "/32"}}, Ports: []wm.NPPort{{HasPort: true, Num: 80}}}},
+			Egress:  []wm.NPRule{{Peers: []wm.NPPeer{{CIDR: wm.PodHostIP(1) + "/32"}, {CIDR: "127.0.0.1/32"}}, Ports: []wm.NPPort{{HasPort: true, Num: 53, Proto: "UDP"}}}}}}},
 		// a rule selector that a real workload matches exactly (its representative peer is removed when that workload is inserted)
 		{WLs: wls(), NPs: []wm.NP{{NS: "ns1", Name: "m", PodSel: *wm.ML("app", "b"), Types: []string{"Ingress"}, Ingress: []wm.NPRule{{Peers: []wm.NPPeer{{Pod: wm.ML("app", "a")}}}}}}},
 	}
@@ -338,7 +342,7 @@ func evalShadow(cs Case, x *fw.Rec) {
 }
 
 func Run(r *fw.Run) {
-	r.Rule = "7 base worlds (label + named-port policies; Service + Ingress; ANP + BANP; ipBlock-only and deny-all policies on a workload whose namespace has no Namespace object; a rule selector matched exactly by a real workload) x 4 document orders x each workload x every re-expression: kind in {Deployment, ReplicaSet, StatefulSet, DaemonSet, Job, CronJob, ReplicationController, bare Pods with one controller ownerReference} x replicas/parallelism in {absent,0,1,2,3}; workload-level labels and selectors differ from the pod-template labels; the report must equal the base report modulo the [Kind] suffix, with exactly one peer per workload, and (worlds without admin policies) the txt report of list --exposure must be the same multiset of lines modulo the suffix; plus worlds of distinct workloads whose generated pod names could coincide (every ordered pair of 8 items, replicas 1..2); non-trivial/distinct = each re-expression"
+	r.Rule = "8 base worlds (ipBlocks equal to single pod / node addresses; label + named-port policies; Service + Ingress; ANP + BANP; ipBlock-only and deny-all policies on a workload whose namespace has no Namespace object; a rule selector matched exactly by a real workload) x 4 document orders x each workload x every re-expression: kind in {Deployment, ReplicaSet, StatefulSet, DaemonSet, Job, CronJob, ReplicationController, bare Pods with one controller ownerReference} x replicas/parallelism in {absent,0,1,2,3}; workload-level labels and selectors differ from the pod-template labels; the report must equal the base report modulo the [Kind] suffix, with exactly one peer per workload, and (worlds without admin policies) the txt report of list --exposure must be the same multiset of lines modulo the suffix; plus worlds of distinct workloads whose generated pod names could coincide (every ordered pair of 8 items, replicas 1..2); non-trivial/distinct = each re-expression"
 	r.Assume = []string{"others workloads of the world stay Deployments with 1 replica while one is re-expressed"}
 	if r.Quick() {
 		r.SetBudget(120 * time.Second)
